@@ -468,7 +468,69 @@ def run_codec_engine(ctx, spec):
         ctx.violation("rewrite", f"{s['k2_instances']} offsets read a reordered sequence after a length-changing merge rewrite", data={"engine": "codec", "seed": ctx.seed})
 
 
-ENGINES = {"hist": run_hist_engine, "alloc": run_alloc_engine, "codec": run_codec_engine}
+def run_sched_engine(ctx, spec):
+    """controlled scheduler: scenarios with property monitors; recorded latch traces validated against Conc.v"""
+    n = spec["quick"] if ctx.tier == "quick" else spec["thorough"]
+    dfs = spec.get("dfs_quick", 0) if ctx.tier == "quick" else spec.get("dfs_thorough", 0)
+    out = os.path.join(CACHE, "run", f"{ctx.pid}_sched")
+    if os.path.exists(out):
+        shutil.rmtree(out)
+    cmd = [os.path.join(CACHE, "harness"), "sched", "--seed", str(ctx.seed), "--n", str(n), "--dfs", str(dfs),
+           "--scenarios", spec["scenarios"], "--out", out]
+    if ctx.replay:
+        r = json.load(open(ctx.replay))
+        d = r.get("data") or {}
+        if d.get("engine") != "sched":
+            return
+        cmd = [os.path.join(CACHE, "harness"), "sched", "--out", out, "--replay",
+               f"{d['scenario']}:{d['cfg_seed']}:{','.join(map(str, d['choices']))}"]
+    vlib.sh(cmd, timeout=3000)
+    s = json.load(open(os.path.join(out, "summary.json")))
+    ctx.checker_cmds.append(f".cache/harness sched --seed {ctx.seed} --n {n} --dfs {dfs} --scenarios {spec['scenarios']}; coqc <lock traces>")
+    cov = ctx.coverage
+    cov["evaluations"] += s["runs"]
+    cov["distinct_nontrivial"] += s["distinct_traces"]
+    cov["traces_validated_against_impl"] = cov.get("traces_validated_against_impl", 0) + s.get("lock_traces", 0)
+    cov.setdefault("engines", []).append({k: s[k] for k in ("engine", "runs", "distinct_traces", "steps", "blocked_steps", "exhaustive_configs",
+                                                             "runs_by_scenario", "lock_traces", "wall_s")})
+    cov["samples"] += [{"engine": "sched", "schedule": x[:1500]} for x in (s.get("samples") or [])[:1]]
+    for v in (s.get("violations") or []):
+        data = {"engine": "sched", "scenario": v["scenario"], "cfg_seed": v["cfg_seed"], "choices": v["choices"], "desc": v["desc"], "trace": v["trace"]}
+        if v["property"] == ctx.pid:
+            ctx.violation("schedule", f"{v['what']}  ({v['desc'][:200]})", data=data)
+        else:
+            ctx.other.append({"concerns": [v["property"]], "what": v["what"][:200], "scenario": v["scenario"], "cfg_seed": v["cfg_seed"]})
+    # known finding classes observed under schedules
+    kf = known_findings(ctx.pid)
+    for cls, inst in (s.get("known") or {}).items():
+        if cls in kf:
+            ctx.known.append(f"{cls} {kf[cls]} [{inst[:160]}]")
+    # the recorded latch traces against the protocol model
+    if spec.get("locks", True) and s.get("trace_files"):
+        origin = json.load(open(os.path.join(out, "lock_origin.json")))
+        for tf in s["trace_files"]:
+            p = subprocess.run(["timeout", "1200", "coqc", "-Q", COQ, "ColumnV", tf], cwd=out, stdout=subprocess.PIPE, stderr=subprocess.STDOUT, text=True)
+            m = re.search(r"M\s*=\s*(.*?)\n\s*:\s*list", p.stdout, re.S)
+            if p.returncode != 0 or not m:
+                ctx.violation("correspondence", "Conc.v lock_check_all could not be evaluated on the recorded schedules: " + p.stdout[-1500:], found_input=False)
+                continue
+            bad = [(int(a), int(b)) for a, b in re.findall(r"\((\d+)%N,\s*(\d+)%N\)", m.group(1))]
+            seen = set()
+            for k, i in bad:
+                if k in seen:
+                    continue
+                seen.add(k)
+                org = origin[k] if k < len(origin) else "?"
+                if ctx.pid in ("C10", "C18", "C09"):
+                    sc, cs, ch, choices = org.split(":", 3)
+                    ctx.violation("latch", f"a thread got past a latch acquisition the protocol forbids (event {i} of the {ch} trace of {sc} cfg {cs})",
+                                  data={"engine": "sched", "scenario": sc, "cfg_seed": int(cs), "choices": json.loads(choices.replace(" ", ","))})
+                else:
+                    ctx.other.append({"concerns": ["C10", "C18"], "what": "latch protocol mismatch", "origin": org[:120]})
+
+
+ENGINES = {"hist": run_hist_engine, "alloc": run_alloc_engine, "codec": run_codec_engine, "sched": run_sched_engine}
+S = lambda scen, q, t, **kw: dict(engine="sched", scenarios=scen, quick=q, thorough=t, **kw)
 
 H = lambda profile, q, t, **kw: dict(engine="hist", profile=profile, quick=q, thorough=t, **kw)
 
@@ -483,13 +545,21 @@ PROPS = {
                 rule="histories with filter chains and terminals; non-trivial = a chain operator and a terminal in the history"),
     "C05": dict(engines=[dict(engine="codec", quick=300, thorough=6000), H("mix", 30, 300)],
                 rule="random op sequences over {delete, insert, put, merge} x {0,2,4,8-byte, bytes} x offset moves, written to the real buffer; every case is distinct by construction (independent PRNG streams) and non-trivial (>=1 op); the model must produce the same bytes"),
+    "C06": dict(engines=[H("replica", 60, 800), S("rows", 150, 3000, dfs_thorough=6000)],
+                rule="sequential: histories replayed on a second collection (channel clones or a serialized log file), replica dump compared; schedules: 2-3 writers over 1-2 blocks (random + exhaustive DFS in the thorough tier), replica fed in logger order; distinct = distinct schedule traces"),
+    "C08": dict(engines=[S("snap", 250, 4000, dfs_quick=300, dfs_thorough=8000)],
+                rule="a snapshot thread beside 2-3 committing writers (merges and overwrites, one or two blocks) at every yield point of the commit and snapshot protocols; the restored rows must be a prefix per block of the latch order containing every commit acknowledged before the snapshot began"),
+    "C09": dict(engines=[S("rows", 250, 4000, dfs_quick=300, dfs_thorough=8000)],
+                rule="2-3 writers merging (additive and order-sensitive v*3+d) into overlapping rows of 1-2 blocks with readers; final value = fold of the committed deltas in latch order"),
+    "C10": dict(engines=[S("rows", 250, 4000, dfs_quick=300, dfs_thorough=8000)],
+                rule="writers preserving a+b=100 on every row beside point and range readers reading a, yielding, reading b; every recorded schedule is also replayed through the latch protocol model"),
     "C07": dict(engines=[H("restore", 60, 800), H("dense", 3, 24, per_shard=1)],
                 rule="histories with snapshot->restore->continue cycles; non-trivial = a restore after >=2 commits"),
-    "C11": dict(engines=[H("alloc", 60, 800), dict(engine="alloc", quick=300, thorough=6000)],
+    "C11": dict(engines=[H("alloc", 60, 800), dict(engine="alloc", quick=300, thorough=6000), S("ins", 150, 3000, dfs_thorough=4000, locks=False)],
                 rule="insert/delete heavy histories; non-trivial = >=3 inserts with a delete or offset reuse"),
     "C12": dict(engines=[H("keys", 70, 900)],
                 rule="keyed histories over a 6-key alphabet; non-trivial = >=3 key operations"),
-    "C15": dict(engines=[H("mix", 60, 800), H("atomic", 30, 300)],
+    "C15": dict(engines=[H("mix", 60, 800), H("atomic", 30, 300), S("rows", 150, 3000, dfs_thorough=4000)],
                 rule="histories with a recording logger: emitted commits (decoded per block) compared with the model's stream, ids checked to be distinct, non-zero and increasing per block; non-trivial = >=2 emitted commits with an abort or a multi-block transaction"),
     "C16": dict(engines=[H("sorted", 60, 800)],
                 rule="histories with a sorted index; non-trivial = an Ascend in the history"),
